@@ -311,11 +311,22 @@ fn gen_signatures(ctx: &mut Ctx) {
         sig4(ctx, 4, 0x18, 1, 8, &[], &area, &sig_tail(1), canon, "sub_embedded_unhashed");
     }
     // deep nesting
-    let mut deep = inner.clone();
-    for _ in 0..ctx.pick(12, 40) {
-        deep = wire::sig_v4(4, 0x18, 1, 8, &[], &wire::subpacket_min(32, &deep), [1, 2], None, &sig_tail(1));
+    // (the parser follows at most MAX_EMBEDDED_SIGNATURE_DEPTH levels: every depth around that cap,
+    // in the hashed and in the unhashed area, plus one far beyond it)
+    for levels in (0..=8usize).chain([ctx.pick(12, 40)]) {
+        for hashed in [false, true] {
+            let mut deep = inner.clone();
+            for _ in 0..levels {
+                let area = wire::subpacket_min(32, &deep);
+                deep = if hashed {
+                    wire::sig_v4(4, 0x18, 1, 8, &area, &[], [1, 2], None, &sig_tail(1))
+                } else {
+                    wire::sig_v4(4, 0x18, 1, 8, &[], &area, [1, 2], None, &sig_tail(1))
+                };
+            }
+            pkt(ctx, 2, deep, true, "sub_embedded_deep");
+        }
     }
-    pkt(ctx, 2, deep, true, "sub_embedded_deep");
     // subpacket length forms x length classes (also non-minimal), several subpackets per area
     for form in [1u8, 2, 5] {
         for n in [0usize, 1, 2, 100, 190, 191, 192, 193, 255, 256, 1000, 8383, 16318, 16319, 16320, 20000] {
